@@ -256,7 +256,7 @@ edited / SIGHUP delivered (`sighup()` sets the flag) / the main loop passes its 
 outputs. The guard of `msg` ("the outputs are `todoDo` under the configuration in force") is tied to
 the code by replaying the real daemon's traces through `acceptAll` (driver, DISAGREE channel). What
 follows are consequences *over all traces the monitor accepts*: which events can change the
-configuration (`C10_fixed`, `C10_nohup`, `C10_hup`, `C10_hup_later`, `C10_hup_race`: induction over the
+configuration (`C10_fixed`, `C10_nohup`, `C10_hup`, `C10_hup_later`, `C10_hup_overlap`, `C10_hup_race`: induction over the
 trace) and that every accepted trace satisfies the documented predicate `specTrace` (`C10_trace`:
 simulation invariant `Sim`, chaining `C10_controls`, `C10_hup_controls`, `C10_constmap`, `C10_spec`,
 `C10_todo`), which is what the driver's S-oracle evaluates on the real daemon. -/
@@ -308,6 +308,26 @@ theorem C10_hup_race (d d1 d2 : Daemon) (todo : Bytes) (out : Option TodoOut)
     subst h2
     exact ⟨hq.symm, rfl, rfl⟩
   · simp at h2
+
+/-- **a SIGHUP that arrives while the re-read for an earlier one is under way is not lost**: the loop
+top clears the flag *before* it calls `reread()`, so the second signal sets it again and the loop re-reads
+once more when it next passes its top. Trace: `hup`, `top` (re-read (A), whatever version of the files it
+saw: `d.files`), the files are edited to `f2`, `hup` (B, any time after the flag was cleared), `top`. The
+configuration is then `reget` of `f2` on top of what (A) installed, no re-read is pending, and along every
+SIGHUP-free continuation every message is preprocessed under it. (With `reread(); flagreadasap = 0;` the
+second `hup` would be wiped and `f2` ignored: the real daemon is run through exactly this trace, the second
+signal delivered before each call inside `reread()` in turn - harness `I` steps.) -/
+theorem C10_hup_overlap (d d5 dn : Daemon) (f2 : Files) (es : List Ev)
+    (h : acceptAll d [.hup, .top, .edit f2, .hup, .top] = some d5)
+    (hno : es.all (fun e => !isHup e) = true) (h3 : acceptAll d5 es = some dn) :
+    d5.flagread = false ∧ d5.cfg = reget d.me (reget d.me d.cfg d.files) f2 ∧ dn.cfg = d5.cfg ∧
+    ∀ todo out, Ev.msg todo out ∈ es →
+      out = todoDo (reget d.me (reget d.me d.cfg d.files) f2).htLookups
+                   (reget d.me (reget d.me d.cfg d.files) f2).env todo := by
+  simp only [acceptAll, accept, Daemon.top, if_true, Option.some.injEq] at h
+  subst h
+  obtain ⟨a, _, b⟩ := acceptAll_stable es _ dn rfl hno h3
+  exact ⟨rfl, rfl, a, b⟩
 
 /-- what the reread installs: the freshly parsed `locals` (default `me`) and `virtualdomains`
 (absent file = empty); an unreadable `locals` with no `me` keeps everything as it was -/
